@@ -69,6 +69,8 @@ func (f *SlotUnbound) Call(s *slip.Scope, args slip.List, depth int) slip.Object
 type defaultSlotUnboundCaller struct{}
 
 func (defaultSlotUnboundCaller) Call(s *slip.Scope, args slip.List, depth int) slip.Object {
-	slip.CheckArgCount(s, depth, args[0], args, 3, 3)
+	if len(args) != 3 {
+		slip.ErrorPanic(s, depth, "Wrong number of arguments to slot-unbound. 3 expected but got %d.", len(args))
+	}
 	panic(slip.UnboundSlotNew(s, depth, args[1], args[2], ""))
 }
